@@ -13,6 +13,7 @@
 //                      bstart (nng_dialer_create + a thread blocked in nng_dialer_start(d,0): handle known),
 //                      fill (nng_sendmsg NONBLOCK until it fails, at most 64, so that later sends block)
 //   order  sock sock2 ctxsock ctx2 epsock ep2 pipesock seq opsock
+//          ctxbusy: 8 threads looping over nng_ctx_get_ms on the contexts (opened up to 8) while one thread closes the socket
 //          extensions: opsockc / opsockd (opsock whose loop leaves out the dialer / the context calls)
 //          lateop: white-box replay of the interleaving inside nng_socket_send / nng_socket_recv in which the
 //                  operation obtains its socket reference (nni_sock_find) before the close begins and reaches
@@ -26,6 +27,7 @@
 #include <errno.h>
 #include <fcntl.h>
 #include <netinet/in.h>
+#include <ctype.h>
 #include <pthread.h>
 #include <sched.h>
 #include <signal.h>
@@ -234,6 +236,7 @@ static const proto_t protos[] = {
 	{ "pair0_raw", nng_pair0_open_raw, "pair0_raw", 1 },
 	{ "pair1", nng_pair1_open, "pair1", 0 },
 	{ "pair1_raw", nng_pair1_open_raw, "pair1_raw", 1 },
+	{ "pair1_poly", nng_pair1_open_poly, "pair1", 0 },
 	{ "bus0", nng_bus0_open, "bus0", 0 },
 	{ "bus0_raw", nng_bus0_open_raw, "bus0_raw", 1 },
 	{ NULL, NULL, NULL, 0 },
@@ -823,11 +826,28 @@ setup_shape(scn_t *sc, const char *shape)
 	char  addr[192];
 	int   rv;
 	int   nest = 0; // established pipes expected so far
+	int   nrep = 1; // x<N>
 
 	snprintf(buf, sizeof(buf), "%s", shape);
 	for (char *t = strtok_r(buf, ",", &sp); t != NULL; t = strtok_r(NULL, ",", &sp)) {
 		int k;
 		if (strcmp(t, "-") == 0 || strcmp(t, "none") == 0) continue;
+		// sbuf<N> / rbuf<N>: NNG_OPT_SENDBUF / NNG_OPT_RECVBUF of the socket (set before anything else);
+		// x<N>: N instances of each of ssend / srecv / asend / arecv (buffered + blocked ones)
+		if (strncmp(t, "sbuf", 4) == 0 && isdigit((unsigned char) t[4])) {
+			if (nng_socket_set_int(sc->s, NNG_OPT_SENDBUF, atoi(t + 4)) != 0) note_ignored(sc, "sbuf");
+			continue;
+		}
+		if (strncmp(t, "rbuf", 4) == 0 && isdigit((unsigned char) t[4])) {
+			if (nng_socket_set_int(sc->s, NNG_OPT_RECVBUF, atoi(t + 4)) != 0) note_ignored(sc, "rbuf");
+			continue;
+		}
+		if (t[0] == 'x' && isdigit((unsigned char) t[1]) && t[2] == 0) {
+			nrep = t[1] - '0';
+			if (nrep < 1) nrep = 1;
+			if (nrep > 4) nrep = 4;
+			continue;
+		}
 		for (k = 0; k < K_NUM; k++) {
 			if (strcmp(t, kind_names[k]) == 0) break;
 		}
@@ -1008,21 +1028,28 @@ setup_shape(scn_t *sc, const char *shape)
 	}
 
 	// --- socket operations ---
-	if (want[K_SRECV]) {
-		op_t *o = op_new(sc, OP_SRECV, "srecv");
-		if (o != NULL) op_start_thread(o);
-	}
-	if (want[K_ARECV]) {
-		op_t *o = op_new(sc, OP_ARECV, "arecv");
-		if (o != NULL && op_prep_aio(o, 0) == 0) nng_socket_recv(sc->s, o->aio);
-	}
-	if (want[K_SSEND]) {
-		op_t *o = op_new(sc, OP_SSEND, "ssend");
-		if (o != NULL) op_start_thread(o);
-	}
-	if (want[K_ASEND]) {
-		op_t *o = op_new(sc, OP_ASEND, "asend");
-		if (o != NULL && op_prep_aio(o, 1) == 0) nng_socket_send(sc->s, o->aio);
+	for (int r = 0; r < nrep; r++) {
+		char nm[24];
+		if (want[K_SRECV]) {
+			snprintf(nm, sizeof(nm), r ? "srecv_%d" : "srecv", r);
+			op_t *o = op_new(sc, OP_SRECV, nm);
+			if (o != NULL) op_start_thread(o);
+		}
+		if (want[K_ARECV]) {
+			snprintf(nm, sizeof(nm), r ? "arecv_%d" : "arecv", r);
+			op_t *o = op_new(sc, OP_ARECV, nm);
+			if (o != NULL && op_prep_aio(o, 0) == 0) nng_socket_recv(sc->s, o->aio);
+		}
+		if (want[K_SSEND]) {
+			snprintf(nm, sizeof(nm), r ? "ssend_%d" : "ssend", r);
+			op_t *o = op_new(sc, OP_SSEND, nm);
+			if (o != NULL) op_start_thread(o);
+		}
+		if (want[K_ASEND]) {
+			snprintf(nm, sizeof(nm), r ? "asend_%d" : "asend", r);
+			op_t *o = op_new(sc, OP_ASEND, nm);
+			if (o != NULL && op_prep_aio(o, 1) == 0) nng_socket_send(sc->s, o->aio);
+		}
 	}
 
 	// --- device last: the operations above stay pending on the socket it then owns ---
@@ -1249,6 +1276,81 @@ closer_init(closer_t *c, scn_t *sc, const char *suffix)
 	c->opscount = -1;
 }
 
+// order ctxbusy: NBUSY threads keep making short context calls (each looks the context up: c_ref++,
+// works, releases) while another thread closes the socket, so that sock_shutdown's walk over s_ctxs
+// meets contexts that are referenced at that instant.
+#define NBUSY 8
+typedef struct {
+	scn_t             *sc;
+	int                k;
+	long               count;
+	pthread_barrier_t *bar;
+} busy_t;
+
+static void *
+busy_thread(void *arg)
+{
+	busy_t      *b   = arg;
+	uint64_t     end = now_ms() + 2000;
+	nng_duration ms;
+	pthread_barrier_wait(b->bar);
+	while (now_ms() < end) {
+		if (nng_ctx_get_ms(b->sc->ctx[b->k], NNG_OPT_RECVTIMEO, &ms) != 0) break;
+		b->count++;
+	}
+	return (NULL);
+}
+
+static int run_order(scn_t *sc, const char *order);
+
+static int
+run_ctxbusy(scn_t *sc)
+{
+	static closer_t   c;
+	static busy_t     b[NBUSY];
+	pthread_t         thr[NBUSY];
+	int               started[NBUSY] = { 0 };
+	pthread_barrier_t bar;
+	long              total = 0;
+
+	while (sc->nctx < MAXCTX && nng_ctx_open(&sc->ctx[sc->nctx], sc->s) == 0) sc->nctx++;
+	if (sc->nctx == 0) {
+		note_ignored(sc, "ctxbusy");
+		return (run_order(sc, "sock"));
+	}
+	closer_init(&c, sc, "");
+	closer_add(&c, A_SOCK, 0, 0);
+	c.presleep_us = rng_next(sc) % 2001;
+	pthread_barrier_init(&bar, NULL, NBUSY + 1);
+	c.bar = &bar;
+	for (int i = 0; i < NBUSY; i++) {
+		b[i].sc    = sc;
+		b[i].k     = i % sc->nctx;
+		b[i].count = 0;
+		b[i].bar   = &bar;
+		if (pthread_create(&thr[i], NULL, busy_thread, &b[i]) != 0) {
+			printf("W %s harness:pthread_create\n", sc->id);
+			fflush(stdout);
+			_exit(3);
+		}
+		started[i] = 1;
+	}
+	if (pthread_create(&c.thr, NULL, closer_thread, &c) != 0) {
+		printf("W %s harness:pthread_create\n", sc->id);
+		fflush(stdout);
+		_exit(3);
+	}
+	pthread_join(c.thr, NULL);
+	for (int i = 0; i < NBUSY; i++) {
+		if (started[i]) pthread_join(thr[i], NULL);
+		total += b[i].count;
+	}
+	pthread_barrier_destroy(&bar);
+	closer_print(&c);
+	printf("O %s %ld\n", sc->id, total);
+	return (0);
+}
+
 // returns -1 for an unknown order
 static int
 run_order(scn_t *sc, const char *order)
@@ -1262,6 +1364,9 @@ run_order(scn_t *sc, const char *order)
 	closer_init(&b, sc, "B");
 	closer_init(&c2, sc, "");
 
+	if (strcmp(order, "ctxbusy") == 0) {
+		return (run_ctxbusy(sc));
+	}
 	if (strcmp(order, "sock") == 0) {
 		closer_add(&a, A_SOCK, 0, 0);
 	} else if (strcmp(order, "sock2") == 0) {
@@ -1714,6 +1819,7 @@ stress_mode(void)
 //   recv|send s|c<k> a<i> [flag]      asynchronous operation with aio a<i> (flag is for the model)
 //   dstart ep<k> a<i>                 nng_dialer_start_aio(d, NNG_FLAG_NONBLOCK, a<i>)
 //   close s | c<k> | ep<k> | p<k>     the close call of that handle
+//   bufs <n>                          NNG_OPT_SENDBUF and NNG_OPT_RECVBUF := n (the model only echoes the return value)
 //   probe                             nothing
 // observation:  rv=<n> done=<a<i>:<rv>,...|-> h=<handle>:<ok|errno>,...
 //   done = operations that reached their result since the previous line (sorted by aio number),
@@ -1967,6 +2073,12 @@ script_mode(void)
 			} else {
 				rv = NNG_EINVAL;
 			}
+		} else if (strcmp(tok[0], "bufs") == 0 && nt >= 2) {
+			// NNG_OPT_SENDBUF and NNG_OPT_RECVBUF of the socket (the upper queues of raw sockets)
+			int r2;
+			rv = nng_socket_set_int(scc.s, NNG_OPT_SENDBUF, atoi(tok[1]));
+			r2 = nng_socket_set_int(scc.s, NNG_OPT_RECVBUF, atoi(tok[1]));
+			if (rv == 0) rv = r2;
 		} else if (strcmp(tok[0], "probe") == 0) {
 			rv = 0;
 		} else {
